@@ -89,6 +89,7 @@ type ReqSpec struct {
 	EOFData   bool        `json:"eof_data,omitempty"`
 	Weight    int         `json:"weight,omitempty"`
 	CWeight   int         `json:"client_weight,omitempty"` // scheduler weight of the client task (default: Weight)
+	AcceptGzip bool       `json:"accept_gzip,omitempty"` // plain HTTP: the client sends Accept-Encoding: gzip (and inflates a response that says it is gzip)
 	CTParam   bool        `json:"ct_param,omitempty"` // plain HTTP: the Content-Type carries a parameter ("; charset=utf-8"). Whether such a request is served or refused is not judged (content negotiation is C03/C04's); it is there for what looking its codec up does to shared state
 	LazyCtx   bool        `json:"lazy_ctx,omitempty"` // duplex script of a local handler: nobody calls stream.Context() before the two goroutines exist, and then both do (whatever the stream sets up on first use is first used from two goroutines)
 	WSClose   string      `json:"ws_close,omitempty"` // normal | none | away
@@ -567,6 +568,9 @@ func (r *reqState) encode() {
 	}
 	if sp.CTParam && sp.Proto == "http" && h.Get("Content-Type") != "" {
 		h.Set("Content-Type", h.Get("Content-Type")+"; charset=utf-8")
+	}
+	if sp.AcceptGzip && sp.Proto == "http" {
+		h.Set("Accept-Encoding", "gzip")
 	}
 	if sp.Accept != "" && sp.Proto == "http" {
 		h.Set("Accept", map[string]string{"json": "application/json", "proto": "application/protobuf", "other": "text/html"}[sp.Accept])
